@@ -71,10 +71,19 @@ where
     T: TryFromHeaderValue,
     T::Error: std::error::Error + Send + Sync + 'static,
 {
+    // A list is sent as repeated header lines, as one line of comma-separated values, or as a mix of both;
+    // an empty value stands for the empty list.
     let mut list = List::new();
-    for val in req.headers.get_all(name) {
-        let ans = T::try_from_header_value(val).map_err(|err| invalid_header(err, name, val))?;
-        list.push(ans);
+    for line in req.headers.get_all(name) {
+        for piece in line.as_bytes().split(|&b| b == b',') {
+            let piece = piece.trim_ascii();
+            if piece.is_empty() {
+                continue;
+            }
+            let val = HeaderValue::from_bytes(piece).map_err(|err| invalid_header(err, name, line))?;
+            let ans = T::try_from_header_value(&val).map_err(|err| invalid_header(err, name, line))?;
+            list.push(ans);
+        }
     }
     if required && list.is_empty() {
         return Err(missing_header(name));
